@@ -8,7 +8,7 @@ import Solstat.Spec.C09
 import Solstat.Spec.C08
 import Solstat.Spec.Dir
 import Solstat.Spec.Report
-import Solstat.Props.MapLoc
+import Solstat.Reloc
 import Solstat.Gen.Patterns
 /-!
 # Correspondence-check plumbing (not part of the verified model)
